@@ -90,3 +90,4 @@ except Exception:
 _p("C11", assumptions=COMMON_VERUS_ASSUMPTIONS, not_covered=[])
 _p("C09", assumptions=COMMON_VERUS_ASSUMPTIONS, not_covered=[])
 _p("C03", assumptions=COMMON_VERUS_ASSUMPTIONS + COMMON_KANI_ASSUMPTIONS, not_covered=[])
+_p("C01", assumptions=COMMON_VERUS_ASSUMPTIONS + COMMON_KANI_ASSUMPTIONS, not_covered=[])
